@@ -147,3 +147,39 @@ mutant("C05-M12", "C05", "R05c", "TimedCompartment.connect compares with the wro
 twin("C05-T2", "C05", "condition split into nested ifs in JunctionCompartment.connect", M, "JunctionCompartment.connect", "        if self.duration_group:\n", "        if self.duration_group is not None:\n")
 twin("C05-T3", "C05", "flush check as if/raise", M, "TimedCompartment.connect", "            assert not isinstance(new_link, TimedLink), \"Cannot flush into the same duration group\"\n", "            if isinstance(new_link, TimedLink):\n                raise ModelError(\"Cannot flush into the same duration group\")\n")
 twin("C05-T4", "C05", "shift slice written [:-1]", M, "TimedCompartment.update", "            self._vals[0:-1, ti] = self._vals[1:, ti]", "            self._vals[:-1, ti] = self._vals[1:, ti]")
+
+# =============================================================================================== C06
+mutant("C06-M1", "C06", "R06a", "update_pars: par.constrain(ti) deleted", M, "Model.update_pars", "                else:\n                    par.constrain(ti)", "                else:\n                    pass")
+mutant(
+    "C06-M2",
+    "C06",
+    "R06a",
+    "program block moved above par.update(ti)",
+    edits=[
+        dict(file=M, func="Model.update_pars", old="            # First - update parameters that are dependencies, evaluating f_stack if required\n            for par in pars:\n                if par._is_dynamic:\n                    par.update(ti)\n", new=""),
+        dict(file=M, func="Model.update_pars", old="            # Handle parameters that aggregate over populations and use interactions in these functions.\n", new="            for par in pars:\n                if par._is_dynamic:\n                    par.update(ti)\n"),
+    ],
+)
+mutant("C06-M3", "C06", "R06b", "build without par.constrain()", M, "Model.build", "                par.constrain()  # Sampling might result in the parameter value going out of bounds (or user might have entered bad values in the databook) so ensure they are clipped here\n", "")
+mutant("C06-M4", "C06", "R06c", "interactions without * par.meta_y_factor", M, "Model.build", "par.interpolate(self.t, to_pop) * par.y_factor[to_pop] * par.meta_y_factor", "par.interpolate(self.t, to_pop) * par.y_factor[to_pop]")
+mutant("C06-M5", "C06", ["R06b", "R06c"], "data parameters without * par.scale_factor", M, "Model.build", "par.vals = cascade_par.interpolate(tvec=self.t, pop_name=par.pop.name) * par.scale_factor", "par.vals = cascade_par.interpolate(tvec=self.t, pop_name=par.pop.name)")
+mutant("C06-M6", "C06", "R06d", "dependency edge reversed", M, "Model._set_exec_order", "                        G.add_edge(dep, par.name)", "                        G.add_edge(par.name, dep)")
+mutant("C06-M7", "C06", "R06e", "scalar skip test > instead of >=", M, "Parameter.update", "if (self.t[ti] >= self.skip_function[0]) and (self.t[ti] <= self.skip_function[1]):", "if (self.t[ti] > self.skip_function[0]) and (self.t[ti] <= self.skip_function[1]):")
+mutant("C06-M8", "C06", "R06e", "scenario baseline mask <=", "atomica/scenarios.py", "ParameterScenario.get_parset", "vals = par.interpolate(tvec[tvec < scen_start], pop_label)", "vals = par.interpolate(tvec[tvec <= scen_start], pop_label)")
+mutant("C06-M9", "C06", "R06d", "post-compute loop without constrain()", M, "Model.process", "                    par.update()\n                    par.constrain()", "                    par.update()")
+mutant("C06-M10", "C06", "R06c", "initial sizes without meta_y_factor", M, "Population.initialize_compartments", "b[i] = par.interpolate(t_init, pop_name=self.name)[0] * par.y_factor[self.name] * par.meta_y_factor", "b[i] = par.interpolate(t_init, pop_name=self.name)[0] * par.y_factor[self.name]")
+mutant("C06-M11", "C06", "R06e", "aggregation skip test <= lo", M, "Model.update_pars", "(self.t[ti] < par.skip_function[0])", "(self.t[ti] <= par.skip_function[0])")
+mutant("C06-M12", "C06", "R06b", "scale factor set after the values are stored", edits=[
+    dict(file=M, func="Model.build", old="                par.scale_factor = cascade_par.meta_y_factor  # Set meta scale factor regardless of whether a population-specific y-factor is also provided\n", new=""),
+    dict(file=M, func="Model.build", old="                par.constrain()  # Sampling might", new="                par.scale_factor = cascade_par.meta_y_factor\n                par.constrain()  # Sampling might"),
+])
+mutant("C06-M13", "C06", "R06c", "function value not scaled", M, "Parameter.update", "v = self.scale_factor * self._fcn(**dep_vals)", "v = self._fcn(**dep_vals)")
+mutant("C06-M14", "C06", "R06a", "characteristics updated after the parameters", edits=[
+    dict(file=M, func="Model.update_pars", old="        for charac in self._exec_order[\"characs\"]:\n            charac.update(ti)\n", new=""),
+    dict(file=M, func="Model.update_pars", old="                else:\n                    par.constrain(ti)", new="                else:\n                    par.constrain(ti)\n        for charac in self._exec_order[\"characs\"]:\n            charac.update(ti)"),
+])
+mutant("C06-M15", "C06", "R06e", "scenario suspends the function from a later year", "atomica/scenarios.py", "ParameterScenario.get_parset", "par.skip_function[pop_label] = (scen_start, np.inf)", "par.skip_function[pop_label] = (max(overwrite[\"t\"]), np.inf)")
+twin("C06-T1", "C06", "sf = par.scale_factor local in the aggregation store", M, "Model.update_pars", "                        par[ti] = par.scale_factor * val", "                        par[ti] = val * par.scale_factor")
+twin("C06-T2", "C06", "scalar skip test as not(t < lo or t > hi)", M, "Parameter.update", "if (self.t[ti] >= self.skip_function[0]) and (self.t[ti] <= self.skip_function[1]):", "if not (self.t[ti] < self.skip_function[0] or self.t[ti] > self.skip_function[1]):")
+twin("C06-T3", "C06", "chained comparison in the scalar skip test", M, "Parameter.update", "if (self.t[ti] >= self.skip_function[0]) and (self.t[ti] <= self.skip_function[1]):", "if self.skip_function[0] <= self.t[ti] <= self.skip_function[1]:")
+twin("C06-T4", "C06", "constrain via a conditional index", M, "Model.update_pars", "                if par.derivative and ti < len(self.t) - 1:\n                    # If derivative parameter, then perform an Euler forward step before constraining\n                    par[ti + 1] = par[ti] + par._dx * self.dt\n                    par.constrain(ti + 1)\n                else:\n                    par.constrain(ti)", "                k = ti\n                if par.derivative and ti < len(self.t) - 1:\n                    par[ti + 1] = par[ti] + par._dx * self.dt\n                    k = ti + 1\n                par.constrain(k)")
